@@ -17,7 +17,8 @@ import (
 var anchors = []time.Time{
 	time.Date(2020, 1, 1, 12, 0, 0, 0, time.UTC),
 	time.Date(2021, 6, 30, 23, 59, 59, 0, time.UTC),
-	time.Date(2020, 1, 1, 12, 0, 0, 1, time.UTC), // anchors[0] plus one nanosecond; only shapes that ask for three anchors draw it
+	time.Date(2020, 1, 1, 12, 0, 0, 1, time.UTC), // anchors[0] plus one and plus two nanoseconds: drawn only by the shapes that list them
+	time.Date(2020, 1, 1, 12, 0, 0, 2, time.UTC),
 }
 
 const baseAnchors = 2
